@@ -11,6 +11,7 @@ import itertools
 import json
 import os
 import re
+import shutil
 import time
 
 import common
@@ -588,7 +589,8 @@ def run_files_parallel(named_bodies, timeout=900, nproc=None):
   """Like common.run_cases_parallel, but coqc's output goes to a file: the answers of one file exceed the
   pipe buffer, and common's runner only reads the pipe after the process has exited."""
   import subprocess
-  d = os.path.join(common.BUILD, "cases")
+  d = os.path.join(common.BUILD, "c18", "cases_%d" % os.getpid())   # private: concurrent runs must not collide
+  shutil.rmtree(d, ignore_errors=True)
   os.makedirs(d, exist_ok=True)
   nproc = nproc or max(1, min(common.NCPU, 8))
   pending = list(named_bodies)
@@ -601,7 +603,7 @@ def run_files_parallel(named_bodies, timeout=900, nproc=None):
       with open(path, "w") as f:
         f.write(body)
       outf = open(os.path.join(d, name + ".out"), "w")
-      running[name] = (subprocess.Popen(["timeout", str(timeout), "coqc", "-Q", common.COQ, "PV", path],
+      running[name] = (subprocess.Popen(["timeout", str(timeout), "coqc", "-noglob", "-Q", common.COQ, "PV", path],
                                         stdout=outf, stderr=subprocess.STDOUT, cwd=d), outf)
     done = [n for n, (p, _) in running.items() if p.poll() is not None]
     if not done:
@@ -611,6 +613,8 @@ def run_files_parallel(named_bodies, timeout=900, nproc=None):
       p, outf = running.pop(n)
       outf.close()
       results[n] = (p.returncode == 0, open(os.path.join(d, n + ".out")).read())
+  if all(ok for ok, _ in results.values()):
+    shutil.rmtree(d, ignore_errors=True)
   return results
 
 
@@ -633,9 +637,10 @@ def run_models(jobs, namer=None, chunk=1000, batch=25):
         part = [t for t, _ in part]
       for j in range(0, len(part), batch):
         lst = "; ".join(part[j:j + batch])
-        lines.append(("Eval vm_compute in [%s].\n" if kind == "cond" else "Eval vm_compute in (map rs [%s]).\n") % lst)
+        lines.append(("Eval vm_compute in (map rs [%s]).\n" if kind == "state" else "Eval vm_compute in [%s].\n") % lst)
       name = "c18_%s_%04d" % (kind, i // chunk)
-      bodies.append((name, HEADER + "".join(lines)))
+      hdr = HEADER + ("From PV Require Import Flow.Proofs.\n" if kind == "rstate" else "")
+      bodies.append((name, hdr + "".join(lines)))
       meta.append((jn, kind, name, len(part)))
   results = run_files_parallel(bodies, timeout=900)
   outs = [[] for _ in jobs]
@@ -653,6 +658,7 @@ def run_models(jobs, namer=None, chunk=1000, batch=25):
       raise common.BuildError("cases file %s: expected %d answers, got %d" % (name, n, len(got)))
     for t in got:
       outs[jn].append(model_cond(t) if kind == "cond" else model_opt(t, model_state))
+
   return outs
 
 
@@ -762,6 +768,24 @@ def load_corpus():
   return out
 
 
+def witnesses():
+  """The two hand-built objects of Props/C18.v (*_needs_*), on the real classes.  They are outside the
+  property's quantifier (not built through the public operations); the model must still predict them.
+  Returns [(name, Coq expression of the model's rendering, real rendering, real object violates?)]."""
+  m = impl()
+  a0, a1 = m.Atom(0), m.Atom(1)
+  s1 = m.S.BlockState({"n0": m.V.Variable((m.V.Binding(1, a0), m.V.Binding(1, a1)))})
+  s2 = m.S.BlockState({"n0": m.V.Variable.from_value(2)})
+  mg = s1.merge_into(s2)
+  w1 = ("duplicate-value-variable", "Some (render_state (merge_into dup_s1 (Some dup_s2)))",
+        render_state(mg), merge_oracle(s1, s2, mg) is not None)
+  s = m.S.BlockState({"n0": m.V.Variable.from_value(1)}, a0, set())
+  r = s.with_condition(a1)
+  w2 = ("explicit-local-not-implying-block-condition", "Some (render_state (with_condition imp_s (Atom 1)))",
+        render_state(r), with_oracle(s, a1, r) is not None)
+  return [w1, w2]
+
+
 def report_history_violation(res, p, n_viol):
   if n_viol > 3:
     return
@@ -811,6 +835,7 @@ def run(res):
   res.extra["histories_run"] = len(progs)
 
   # ---- model side (coqc in the background) ------------------------------------------------------------
+  wits = witnesses()
   namer = Namer()
   for lvl in levels[:-1]:
     for p, _ in lvl:
@@ -818,8 +843,10 @@ def run(res):
   box = {}
   def model_thread():
     try:
-      box["cond"], box["state"] = run_models([("cond", [call_to_coq(k, a) for k, a, _ in calls]),
-                                              ("state", [namer.term(p) for p in progs])], namer)
+      box["cond"], box["state"], box["wit"] = run_models(
+          [("cond", [call_to_coq(k, a) for k, a, _ in calls]),
+           ("state", [namer.term(p) for p in progs]),
+           ("rstate", [w[1] for w in wits])], namer)
     except BaseException as e:  # pylint: disable=broad-except
       box["error"] = e
   th = threading.Thread(target=model_thread)
@@ -947,6 +974,9 @@ def run(res):
                  "%d of %d histories disagree; first: %s" % (
                      len(mism), len(progs),
                      [(prog_str(progs[i]), str(real_states[i]), str(model_states[i])) for i in mism[:1]]))
+  bad_w = [w[0] for w, mw in zip(wits, box["wit"]) if mw != w[2]]
+  res.obligation("correspondence:hand-built-witnesses", not bad_w, "model and real classes differ on %s" % bad_w)
+  res.extra["outside_quantifier_witnesses_violate_on_real_code"] = {w[0]: w[3] for w in wits}
   res.extra["wall_legs_s"] = round(time.time() - t0, 1)
   if thorough:
     ok, out = common_coqchk("C18")
